@@ -354,6 +354,36 @@ func runExtract(c *Case, r *mon.Rec, rng *rand.Rand, payload []byte) {
 	fields := make(modbus.Fields, n)
 	for i := range fields {
 		fields[i] = randField(rng, c, i)
+		if i > 0 && rng.Intn(2) == 0 {
+			// a near twin of an earlier field: same address, ONE attribute different (string length by one, bit, byte half,
+			// byte order, or a type of the same width) - what a memo keyed on too few attributes would confuse
+			f := fields[rng.Intn(i)]
+			f.Name = fmt.Sprintf("f%d", i)
+			switch rng.Intn(5) {
+			case 0:
+				if f.Length%2 == 1 {
+					f.Length++
+				} else if f.Length > 1 {
+					f.Length--
+				}
+			case 1:
+				f.Bit = (f.Bit + 1 + uint8(rng.Intn(15))) % 16
+			case 2:
+				f.FromHighByte = !f.FromHighByte
+			case 3:
+				f.ByteOrder = randField(rng, c, i).ByteOrder
+			default:
+				twins := map[modbus.FieldType][]modbus.FieldType{
+					modbus.FieldTypeUint32: {modbus.FieldTypeInt32, modbus.FieldTypeFloat32}, modbus.FieldTypeInt32: {modbus.FieldTypeUint32, modbus.FieldTypeFloat32}, modbus.FieldTypeFloat32: {modbus.FieldTypeUint32, modbus.FieldTypeInt32},
+					modbus.FieldTypeUint64: {modbus.FieldTypeInt64, modbus.FieldTypeFloat64}, modbus.FieldTypeInt64: {modbus.FieldTypeUint64, modbus.FieldTypeFloat64}, modbus.FieldTypeFloat64: {modbus.FieldTypeUint64, modbus.FieldTypeInt64},
+					modbus.FieldTypeUint16: {modbus.FieldTypeInt16}, modbus.FieldTypeInt16: {modbus.FieldTypeUint16}, modbus.FieldTypeUint8: {modbus.FieldTypeInt8, modbus.FieldTypeByte}, modbus.FieldTypeInt8: {modbus.FieldTypeUint8}, modbus.FieldTypeByte: {modbus.FieldTypeInt8},
+				}
+				if t := twins[f.Type]; len(t) > 0 {
+					f.Type = t[rng.Intn(len(t))]
+				}
+			}
+			fields[i] = f
+		}
 	}
 	mkReq := func(fs modbus.Fields) modbus.BuilderRequest {
 		return modbus.BuilderRequest{ServerAddress: "dev:502", UnitID: 1, StartAddress: uint16(c.Start), Fields: fs}
